@@ -329,7 +329,8 @@ def json_to_def(j):
 
 def features(d, dd_info):
     rs = rules_in_order(d)
-    f = {'nsets': len(ruleset_names(d)), 'nrules': len(rs), 'has_ctx': any(r[4] is not None for r in rs),
+    has_let = any(it[0] == 'let' or (it[0] == 'ruleset' and any(x[0] == 'let' for x in it[2])) for it in d['items'])
+    f = {'nsets': len(ruleset_names(d)), 'nrules': len(rs), 'has_ctx': any(r[4] is not None for r in rs), 'has_let': has_let,
          'has_scripted': any(r[2] in ('infallible', 'fallible') for r in rs), 'has_fallible': any(r[2] == 'fallible' for r in rs)}
     for line in dd_info:
         if line.startswith('stats '):
